@@ -35,7 +35,7 @@ if tests:
     meta['tests_with_change'] = {'cmd': ' '.join(tests), 'tail': ot[-300:], 'seconds': round(time.time() - t0)}
 # the check, against the changed tree
 t0 = time.time()
-p = subprocess.run('VERIF_EVIDENCE_DIR=/tmp/evid_mut REPO=%s python3-vt -m cbv.check %s 2>&1 | grep -v "^WARN" | tail -12' % (wt, prop), shell=True, cwd='/verif',
+p = subprocess.run('VERIF_EVIDENCE_DIR=/tmp/evid_mut REPO=%s python3-vt -m cbv.check %s 2>&1 | grep -v "^WARN" | grep "^VIOLATION\\|^UNDECIDED\\|^KNOWN-FINDING\\|tier=\\|^CHECKER-ERROR" | cut -c1-600 | tail -40' % (wt, prop), shell=True, cwd='/verif',
                    capture_output=True, text=True, timeout=7200)
 meta['check'] = {'cmd': 'REPO=<worktree with the change> python3-vt -m cbv.check %s --tier quick' % prop,
                  'output_tail': p.stdout[-2500:], 'seconds': round(time.time() - t0),
